@@ -443,10 +443,8 @@ def observe_fn(rng, qu, n, op, kind, rep, herm, pinned=None):
             v = qu.qarray(v.reshape(-1, 1))
             r["ketshape"] = True
         kw = {}
-        if rep == "linop":
-            # scipy estimates the trace of a matrix-free operator with a single random probe drawn from OS
-            # entropy ("The result is not deterministic") and asks for `traceA`: give it, so the call is reproducible
-            kw["traceA"] = complex(np.trace(A))
+        if pinned is not None and rep == "linop":
+            kw["traceA"] = complex(np.trace(A))   # the reproducer of the report: exact trace, estimator start 7
         cc = Catch().run(lambda: qu.expm_multiply(Ar, v, **kw), seed=None if pinned is None else pinned["npseed"])
     r["exc"], r["warn"] = cc.exc, cc.warn
     if not cc.exc:
